@@ -27,6 +27,9 @@ pub enum Op {
     Count,
     SaveReopen { w: Face, r: Face, ic: u8 },
     AddEmpty { id: u64 },
+    /// lookups of reader-backed tiles disturbed by a transient stream failure or a cancelled
+    /// request, followed by undisturbed lookups (see `scen_foreign::disturbed_lookups`)
+    Disturb { seed: u64 },
 }
 
 #[derive(Clone, Debug, Serialize, Deserialize)]
@@ -53,6 +56,10 @@ struct State {
     /// ids that were present at some point and have been removed (probes)
     removed: BTreeSet<u64>,
     ic: u8,
+    /// the stream and image behind the reader-backed tiles, and (computed on demand) where the
+    /// independent reader finds each tile in it
+    backing: Option<(SimDisk, Vec<u8>)>,
+    addr: Option<(u64, BTreeMap<u64, (u64, u32)>)>,
 }
 
 impl Scenario for History {
@@ -102,7 +109,8 @@ impl Scenario for History {
                     Op::Add { id, c }
                 }
                 40..=54 => Op::Remove { id: pick_id(rng, &known) },
-                55..=74 => Op::Lookup { id: pick_id(rng, &known) },
+                55..=71 => Op::Lookup { id: pick_id(rng, &known) },
+                72..=74 => Op::Disturb { seed: rng.next_u64() },
                 75..=79 => Op::LookupXyz { id: pick_id(rng, &known) },
                 80..=84 => Op::List,
                 85..=89 => Op::Count,
@@ -205,20 +213,24 @@ impl Scenario for History {
 fn run_history(prop: &str, c: &HistCase, enforce: bool, ctx: &mut Ctx) -> V<Vec<u8>> {
     let p = prop;
     let mut st = match &c.init {
-        None => State { pm: pmtiles2::PMTiles::default(), model: BTreeMap::new(), mem: BTreeSet::new(), removed: BTreeSet::new(), ic: 2 },
+        None => State { pm: pmtiles2::PMTiles::default(), model: BTreeMap::new(), mem: BTreeSet::new(), removed: BTreeSet::new(), ic: 2, backing: None, addr: None },
         Some(src) => {
             let img = src.materialise(ctx, p)?;
             let disk = SimDisk::new(img.image.clone(), &c.sched.r);
+            let backing = Some((disk.clone(), img.image.clone()));
             let pm = match sut::open(disk, c.face)? {
                 Ok(pm) => pm,
                 Err(e) => vio!(format!("{p}:initial-open-failed"), "valid initial archive does not open: {e}"),
             };
             ctx.bump(if src.is_foreign() { "init_foreign" } else { "init_written" }, 1);
-            State { pm, model: img.expected, mem: BTreeSet::new(), removed: BTreeSet::new(), ic: img.header.ic }
+            State { pm, model: img.expected, mem: BTreeSet::new(), removed: BTreeSet::new(), ic: img.header.ic, backing, addr: None }
         }
     };
     let check_model = enforce && (p == "C04" || p == "C19");
     let check_store = enforce && p == "C10";
+    // C01: what was written is what an open of the written bytes yields (judged right after
+    // every save+reopen and on the final image; lookups in between are part of the history only)
+    let check_roundtrip = enforce && p == "C01";
     let mut mutations = 0u32;
     let mut save_no = 0u64;
     for (i, op) in c.ops.iter().enumerate() {
@@ -274,6 +286,32 @@ fn run_history(prop: &str, c: &HistCase, enforce: bool, ctx: &mut Ctx) -> V<Vec<
                     ensure!(st.pm.num_tiles() == st.model.len(), format!("{p}:count"), "op {i}: num_tiles() = {}, model has {}", st.pm.num_tiles(), st.model.len());
                 }
             }
+            Op::Disturb { seed } => {
+                if let Some((handle, image)) = st.backing.clone() {
+                    if st.addr.is_none() {
+                        let h = spec::parse_header(&image).map_err(|e| Violation::new("harness:backing-image", e))?;
+                        let w = spec::walk(&image, &h, spec::Limits::VALID).map_err(|e| Violation::new("harness:backing-image", format!("{e:?}")))?;
+                        st.addr = Some((h.data_offset, w.tiles));
+                    }
+                    let (data_offset, addr) = st.addr.clone().expect("set above");
+                    let ids: Vec<u64> = st.model.keys().copied().filter(|id| !st.mem.contains(id) && addr.contains_key(id)).collect();
+                    let mut rng = Rng::new(*seed);
+                    // the disturbed lookups are part of the history whatever the oracle is; what they
+                    // return is judged only where the map semantics are the oracle
+                    match crate::scen_foreign::disturbed_lookups("MAP", &mut st.pm, &handle, data_offset, &addr, &st.model, &ids, c.face, &mut rng, 2, false, ctx) {
+                        Ok(()) => {}
+                        Err(v) if v.class.starts_with("MAP:") => {
+                            if check_model {
+                                return Err(Violation::new(v.class.replacen("MAP", p, 1), format!("op {i}: {}", v.detail)));
+                            }
+                        }
+                        Err(v) => return Err(v),
+                    }
+                    if !ids.is_empty() {
+                        ctx.bump("disturbed_lookup_ops", 1);
+                    }
+                }
+            }
             Op::AddEmpty { id } => {
                 let before = st.pm.verif_store_stats();
                 let r = sut::guard("add_tile(empty)", || st.pm.add_tile(*id, Vec::<u8>::new()))?;
@@ -307,14 +345,20 @@ fn run_history(prop: &str, c: &HistCase, enforce: bool, ctx: &mut Ctx) -> V<Vec<
                     check_image_valid(&st.model, &image, ctx).map_err(|v| Violation::new(v.class, format!("op {i}: {}", v.detail)))?;
                 }
                 // restart: only the image survives
+                st.backing = Some((SimDisk::new(Vec::new(), &c.sched.r), image.clone()));
+                st.addr = None;
                 let disk = SimDisk::new(image, &c.sched.r);
                 let h2 = disk.clone();
+                st.backing.as_mut().expect("set above").0 = disk.clone();
                 st.pm = match sut::open(disk, *r)? {
                     Ok(pm) => pm,
                     Err(e) => vio!(format!("{p}:reopen-failed"), "op {i}: the archive just saved does not open: {e}"),
                 };
                 ctx.absorb(&h2);
                 st.mem.clear();
+                if check_roundtrip {
+                    full_check(p, &mut st, *r, i, ctx)?;
+                }
                 ctx.bump("save_reopen_ops", 1);
                 mutations += 1;
             }
@@ -358,6 +402,13 @@ fn run_history(prop: &str, c: &HistCase, enforce: bool, ctx: &mut Ctx) -> V<Vec<
     }
     if enforce && p == "C02" {
         check_image_valid(&st.model, &image, ctx)?;
+    }
+    if check_roundtrip {
+        st.pm = match sut::open(SimDisk::new(image.clone(), &c.sched.r), c.face)? {
+            Ok(pm) => pm,
+            Err(e) => vio!(format!("{p}:reopen-failed"), "the archive saved at the end of the history does not open: {e}"),
+        };
+        full_check(p, &mut st, c.face, c.ops.len(), ctx)?;
     }
     Ok(image)
 }
